@@ -2,6 +2,7 @@
 //   integ_driver <cases.ndjson> <obs.ndjson>
 // case: {"k":..,"static":[b,b],"mass":[m1,m2],"dtinv":..,"damp":..,"coupled":b,"hi":1|2,"steps":[{"nodes":[[pos,mom,force] x4 in the order (1,1),(1,2),(2,1),(2,2)]}...]}
 //   each step gives the state (in spec integers) BEFORE that call; forces are (re)set from it, positions/momenta only for the first step
+#include <cmath>
 #include "mesh_probe.hpp"
 #include "shapes.hpp"
 #include "time_integration.hpp"
@@ -20,8 +21,16 @@ int main(int argc, char** argv) {
         const double dt = 1.0 / C["dtinv"].d(), damp = C["damp"].d();
         const long hi = C["hi"].i();
         const bool frag = C.has("frag") && C["frag"].boolean();    // cells with a history: unused slots before live nodes / faces
+        // masses, momenta, forces and the damping coefficient scaled by a power of two (exact): the law p += dt (F - c p / m), x += dt p / m
+        // is homogeneous in them, positions must come out the same. Node
+        // masses of 1e-18 kg and below are those of small or finely meshed cells; an absolute floor on the mass shows only there.
+#if DYNAMIC_MODEL_INDEX == 0
+        const double ms = C.has("mscale_exp") ? std::ldexp(1.0, (int)C["mscale_exp"].i()) : 1.0;
+#else
+        const double ms = 1.0;      // the overdamped law has no mass: forces keep their scale
+#endif
         global_simulation_parameters gp;
-        gp.time_step_ = dt; gp.damping_coefficient_ = damp;
+        gp.time_step_ = dt; gp.damping_coefficient_ = damp * ms;
         time_integration_scheme ti(gp, false);
         // list order: the cell `hi` of the specification has the greater position in the list
         cell_ptr cell_of[3];
@@ -39,7 +48,7 @@ int main(int argc, char** argv) {
             if (st) c = std::make_shared<static_cell>(m.pos, m.tris, (unsigned)(sc + 10), ct);
             else c = std::make_shared<epithelial_cell>(m.pos, m.tris, (unsigned)(sc + 10), ct);
             c->initialize_cell_properties(true);
-            ct->mass_density_ = mass[sc - 1] * (double)c->get_nb_of_nodes() / c->get_volume();    // node mass = mass[sc]
+            ct->mass_density_ = ms * mass[sc - 1] * (double)c->get_nb_of_nodes() / c->get_volume();    // node mass = mass[sc]
             c->set_local_id(li);
             if (frag) cell_tester::fragment(*c, 2, true);      // node 1 now lives in the last slot, slot 0 is unused; face slots 0, 1 unused
             cell_of[sc] = c;
@@ -52,17 +61,17 @@ int main(int argc, char** argv) {
         auto vec = [&](double s) { return vec3(s * UNIT, 2. * s * UNIT, -s * UNIT); };
         vj::out o;
         o.obj().key("k").i(C["k"].i());
-        o.key("node_mass").arr().d(cell_of[1]->get_node_mass()).d(cell_of[2]->get_node_mass()).end_arr();
+        o.key("node_mass").arr().d(cell_of[1]->get_node_mass() / ms).d(cell_of[2]->get_node_mass() / ms).end_arr();
         o.key("steps").arr();
         const int ids[4][2] = {{1, 1}, {1, 2}, {2, 1}, {2, 2}};
         for (size_t s = 0; s < C["steps"].size(); s++) {
             const vj::value& N = C["steps"][s]["nodes"];
             for (int q = 0; q < 4; q++) {
                 node& n = nd(ids[q][0], ids[q][1]);
-                n.set_force(vec(N[q][2].d()));
+                n.set_force(vec(N[q][2].d()) * ms);
                 if (s == 0) {
 #if DYNAMIC_MODEL_INDEX == 0
-                    n.set_momentum(vec(N[q][1].d()));
+                    n.set_momentum(vec(N[q][1].d()) * ms);
 #endif
                 }
             }
@@ -97,9 +106,9 @@ int main(int argc, char** argv) {
 #else
                 const vec3 mo;
 #endif
-                o.key("mom").arr().d(mo.dx() / UNIT).d(mo.dy() / UNIT).d(mo.dz() / UNIT).end_arr();
+                o.key("mom").arr().d(mo.dx() / UNIT / ms).d(mo.dy() / UNIT / ms).d(mo.dz() / UNIT / ms).end_arr();
                 const vec3 fr = nj.force();
-                o.key("force").arr().d(fr.dx() / UNIT).d(fr.dy() / UNIT).d(fr.dz() / UNIT).end_arr();
+                o.key("force").arr().d(fr.dx() / UNIT / ms).d(fr.dy() / UNIT / ms).d(fr.dz() / UNIT / ms).end_arr();
                 o.end_obj();
             }
             for (int sc = 1; sc <= 2; sc++) {
@@ -107,7 +116,7 @@ int main(int argc, char** argv) {
                 for (size_t j = 0; j < NN.size(); j++, bi++) {
                     if (j == slot(sc, 1) || j == slot(sc, 2)) continue;
                     const vec3 dp = NN[j].pos() - base[bi];
-                    others_moved = std::max(others_moved, dp.norm() / UNIT); others_force = std::max(others_force, NN[j].force().norm() / UNIT);
+                    others_moved = std::max(others_moved, dp.norm() / UNIT); others_force = std::max(others_force, NN[j].force().norm() / UNIT / ms);
                 }
             }
             o.end_arr();
